@@ -142,7 +142,11 @@ func c02Run(c *fw.Ctx) {
 				c.Res.Count("positive_round_trips", 1)
 			}
 			// freshness: sealing again gives a different string; all pairwise distinct
-			for i := 0; i < 8; i++ {
+			nSeals := 8
+			if v.Name == "session-small" || v.Name == "flow-record" {
+				nSeals = 1200 // long enough to see a nonce source that cycles or restarts
+			}
+			for i := 0; i < nSeals; i++ {
 				again, _ := ci.Marshal(v.Val)
 				c.Res.Execs++
 				if genuine[again] {
@@ -227,7 +231,12 @@ func c02Run(c *fw.Ctx) {
 }
 
 // c02Present presents one candidate; it returns "" if it was rejected with an error and no data.
-func c02Present(ci aead.Cipher, store *sessions.CookieStore, storeKey bool, v c02Value, api, cand string) string {
+func c02Present(ci aead.Cipher, store *sessions.CookieStore, storeKey bool, v c02Value, api, cand string) (what string) {
+	defer func() {
+		if r := recover(); r != nil {
+			what = fmt.Sprintf("opening the candidate panicked instead of returning an error: %v", r)
+		}
+	}()
 	switch api {
 	case "Unmarshal":
 		tgt := v.New()
@@ -376,7 +385,7 @@ func init() {
 		Level: "exploration",
 		Rule: "for 6 genuine values (empty session, small session, unicode session, 50-group session with long tokens, 300-group session of >16 KiB, flow record) sealed by the real MiscreantCipher under 32- and 64-byte keys and presented to 8 other keys (unrelated keys and neighbours differing in the first / last / 33rd byte or in one half): every single-bit flip of every byte, every prefix/suffix truncation of the string and of the bytes, " +
 			"extension by every byte value and every alphabet character at either end, every single-character substitution from the base64url alphabet plus '=+/ LF', CR/LF insertion at every position, re-encodings and re-padding, presentation under every other key (thorough: all double-bit flips of two values); " +
-			"each candidate goes to Cipher.Unmarshal, sessions.UnmarshalSession and CookieStore.LoadSession. Oracle: a candidate that is not a string sso itself produced must be rejected with an error and yield no data; genuine values round-trip deep-equal; seals are pairwise distinct; sealed bytes contain neither plaintext fields nor the compressed plaintext. " +
+			"each candidate goes to Cipher.Unmarshal, sessions.UnmarshalSession and CookieStore.LoadSession. Oracle: a candidate that is not a string sso itself produced must be rejected with an error and yield no data; genuine values round-trip deep-equal; seals are pairwise distinct (1200 seals of two values, 8 of the others); sealed bytes contain neither plaintext fields nor the compressed plaintext. " +
 			"distinct_nontrivial = distinct (corruption operator, API, rejected?) triples",
 		Assumptions:    []string{"AES-CMAC-SIV (miscreant) is trusted: unforgeability against arbitrary strings is not decided by enumeration", "positions of long values are sub-sampled every 7th character in the quick tier (all positions in thorough)"},
 		QuickBudget:    4 * time.Minute,
